@@ -11,4 +11,5 @@ import ALV.Props.C14
 import ALV.Props.C15
 import ALV.Props.C16
 import ALV.Props.C18
+import ALV.Props.C19
 import ALV.Props.C20
